@@ -1,4 +1,4 @@
-(* C12 driver: resource tree traversal, lookup, fsck, icon-group reassembly *)
+(* C12 driver: resource tree traversal, lookup, fsck, icon- and cursor-group reassembly *)
 let show_err = function
   | ENull -> "Null" | EBounds -> "Bounds" | EZeroFill -> "ZeroFill" | EUnmapped -> "Unmapped"
   | EMisaligned -> "Misaligned" | EBadMagic -> "BadMagic" | EPeMagic -> "PeMagic" | EInsanity -> "Insanity"
@@ -133,12 +133,22 @@ let handle kind fs obs =
   let b2s b = if b then "1" else "0" in
   let show_disp id = let d = display_id id in
     Printf.sprintf "%s/%s%s%s" (hex_of_nlist d) (b2s (eq_string (NId id) d)) (b2s (name_eq (NStr d) (NId id))) (b2s (name_eq (NId id) (NStr d))) in
-  let mobs = Printf.sprintf "root=%s walk=%s fsck=%s lines=%s q=%s man=%s ver=%s icons=%s cursors=%s grp=%s disp=%s"
+  (* the text Display for Resources writes (Model/ResourcesArt.v), UTF-8 encoded by the glue below *)
+  let utf8_encode (cs : n list) : int list =
+    List.concat_map (fun c -> let c = int_of_n c in
+      if c < 0x80 then [c]
+      else if c < 0x800 then [0xC0 lor (c lsr 6); 0x80 lor (c land 0x3F)]
+      else if c < 0x10000 then [0xE0 lor (c lsr 12); 0x80 lor ((c lsr 6) land 0x3F); 0x80 lor (c land 0x3F)]
+      else [0xF0 lor (c lsr 18); 0x80 lor ((c lsr 12) land 0x3F); 0x80 lor ((c lsr 6) land 0x3F); 0x80 lor (c land 0x3F)]) cs in
+  let text_lines = display_text s in
+  let text_bytes = utf8_encode (List.concat text_lines) in
+  let show_text = Printf.sprintf "%d/%s" (List.length text_bytes) (String.concat "" (List.map (Printf.sprintf "%02x") (take 4096 text_bytes))) in
+  let mobs = Printf.sprintf "root=%s walk=%s fsck=%s lines=%s q=%s man=%s ver=%s icons=%s cursors=%s grp=%s disp=%s text=%s"
     (match rt with Ok r -> "ok:" ^ sn r | Err e -> "e" ^ show_err e | Fault _ -> "!fault")
     (join "," (List.map show_witem items)) (show_unit_res (fsck s)) (sn (display_lines s))
     (join "," (List.map run_query qs)) (show_f show_region (manifest s)) (show_f (fun _ -> "ok") (version_info s))
     (join "," (List.map show_group icons)) (join "," (List.map show_group cursors)) (join "," (List.map show_write groups))
-    (join "," (List.map show_disp disp_ids)) in
+    (join "," (List.map show_disp disp_ids)) show_text in
   (* ---------------- oracle, on the implementation's observation ---------------- *)
   let tags = ref [] in
   let tag t = if not (List.mem t !tags) then tags := t :: !tags in
@@ -162,6 +172,11 @@ let handle kind fs obs =
      | "ok" -> tag "fsck-must-pass"; chk "fsck rejects a well-formed tree" (ifsck = "ok")
      | "err" -> tag "fsck-must-fail"; chk "fsck accepts a broken tree" (ifsck <> "ok")
      | _ -> ());
+    (* the printed text is compared with Model/ResourcesArt.v byte by byte (field text= of the projected observation);
+       no separate oracle: a stored name may itself contain line feeds, so the text alone does not determine its lines *)
+    (match String.split_on_char '/' (try List.assoc "text" ofs with Not_found -> "-") with
+     | [ln; _] -> tag (if int_of_string ln <= 4096 then "text-compared" else "text-compared-prefix")
+     | _ -> ());
     (* H: Display / eq round trip (C12_display_roundtrip, C12_display_is_decimal): '#' + the decimal digits, equal all three ways *)
     let idisp = split_on ',' (field ofs "disp") in
     chk "display/eq round trip" (List.length idisp = List.length disp_ids &&
@@ -173,6 +188,12 @@ let handle kind fs obs =
       tag (if full then "walk-complete" else "walk-limited");
       (* D: fsck = everything reachable is valid, when the observer had fsck's own limits *)
       if depth = 32 && sn budget = sn (fsck_budget s) then begin
+        (* how close the case comes to the two limits (depth 32, len/8 entries) *)
+        let nitems = List.length (List.filter (function WItem _ -> true | _ -> false) oitems) in
+        let maxlvl = List.fold_left (fun m -> function WItem i -> max m (int_of_n i.i_lvl) | _ -> m) (-1) oitems in
+        let b = int_of_n budget in
+        if List.mem WCut oitems then tag "limit:nested-33-or-more" else if maxlvl = 31 then tag "limit:nested-32" else if maxlvl = 30 then tag "limit:nested-31";
+        if List.mem WStop oitems then tag "limit:entries-over-budget" else if nitems = b && b > 0 then tag "limit:entries=budget" else if nitems + 1 = b then tag "limit:entries=budget-1";
         let clean = items_clean oitems in
         tag (if clean then "clean" else "unclean");
         chk "fsck disagrees with the traversal" ((ifsck = "ok") = clean)
@@ -238,20 +259,45 @@ let handle kind fs obs =
         chk "write does not reproduce the .ico" (List.exists (fun g -> match String.split_on_char '|' g with
           | [_; "1"; _; "ok"; h] -> h = ico | _ -> false) igrp)
       end;
-      (* G: write = Ico.encode of the observed pieces when the sizes agree *)
+      (* F (cursors): the original .cur - written by the harness's independent .cur writer, then stored the way a resource
+         compiler stores it (RT_GROUP_CURSOR entries with 16-bit sizes, hotspot in front of every RT_CURSOR) - is reproduced *)
+      let cur = if kind = "res" then (try List.assoc "cur" fs with Not_found -> "-") else "-" in
+      if cur <> "-" then begin
+        tag "cur-roundtrip";
+        chk "write does not reproduce the .cur" (List.exists (fun g -> match String.split_on_char '|' g with
+          | [_; "2"; _; "ok"; h] -> h = cur | _ -> false) igrp)
+      end;
+      (* G: write = the file of the observed pieces when the sizes agree.
+         icon groups (C12_group_write_ico): Ico.encode of the first 12 bytes of every entry and the resources;
+         cursor groups (C12_group_write_cur_pieces): Cur.encode_file of the cursor images that the 14-byte entries and the
+         resources denote (Cur.of_resources) - every resource at least as long as the hotspot *)
       List.iter (fun g -> match String.split_on_char '|' g with
         | [hoff; ty; ents; st; h] ->
           let es = List.map (fun e -> Array.of_list (String.split_on_char '/' e)) (split_on ';' ents) in
           let hoff = int_of_string hoff in
+          let cursor = (ty = "2") in
           let ok_all = List.for_all (fun e -> match String.split_on_char '.' e.(2) with
-            | ["R"; _; ln] -> ln = e.(1) | _ -> false) es in
+            | ["R"; _; ln] -> ln = e.(1) && (not cursor || int_of_string ln >= 4) | _ -> false) es in
           if ok_all && st = "ok" then begin
-            tag "write-consistent-group";
-            let imgs = List.mapi (fun k e -> match String.split_on_char '.' e.(2) with
-              | ["R"; st; ln] -> { ii_head = sec_bytes s (n_of_int (hoff + 6 + 14 * k)) (n_of_int 12); ii_data = sec_bytes s (n_of_string st) (n_of_string ln) }
-              | _ -> failwith "img") es in
-            chk "write <> Ico.encode" (h = hex_of_nlist (ico_encode (n_of_string ty) imgs))
-          end else tag (if st = "ok" then "write-mismatched-group" else "write-error")
+            tag (if cursor then "write-consistent-cursor-group" else "write-consistent-group");
+            let piece e = (match String.split_on_char '.' e.(2) with
+              | ["R"; st; ln] -> sec_bytes s (n_of_string st) (n_of_string ln)
+              | _ -> failwith "img") in
+            if cursor then begin
+              let c = of_resources (List.mapi (fun k _ -> sec_bytes s (n_of_int (hoff + 6 + 14 * k)) (n_of_int 14)) es) (List.map piece es) in
+              if es <> [] then tag "cursor-images";
+              chk "write <> Cur.encode_file" (h = hex_of_nlist (encode_file c))
+            end else begin
+              let imgs = List.mapi (fun k e -> { ii_head = sec_bytes s (n_of_int (hoff + 6 + 14 * k)) (n_of_int 12); ii_data = piece e }) es in
+              chk "write <> Ico.encode" (h = hex_of_nlist (ico_encode (n_of_int 1) imgs))
+            end
+          end else begin
+            tag (if st = "ok" then "write-mismatched-group" else "write-error");
+            (* a cursor entry cannot be written without its hotspot: a missing or short resource is an error, never a file *)
+            if cursor && st = "ok" then
+              chk "cursor group written although a resource is missing or shorter than its hotspot" (List.for_all (fun e ->
+                match String.split_on_char '.' e.(2) with ["R"; _; ln] -> int_of_string ln >= 4 && int_of_string e.(1) >= 4 | _ -> false) es)
+          end
         | _ -> chk "grp syntax" false) igrp
     end else begin
       (* the root is rejected: everything reports that error *)
